@@ -187,7 +187,7 @@ def hash_exec(rng):
     groups = []
     kinds_of = {}
     nocopy = set()
-    for kind, vals in (("I", ints(rng, 8)), ("F", floats(rng, 8) + NANS), ("S", strings(rng, 8)), ("Y", TYPES[:6] + NESTED_TYPES), ("X", blobs(rng, 6)),
+    for kind, vals in (("I", ints(rng, 8) + [2**53, 2**53 + 1, 2**60, 2**60 + 100, I64MAX - 1, I64MAX]), ("F", floats(rng, 8) + NANS), ("S", strings(rng, 8)), ("Y", TYPES[:6] + NESTED_TYPES), ("X", blobs(rng, 6)),
                        ("X", blobs(rng, 6, 12)), ("X", blobs(rng, 6, 5)), ("X", sblobs(rng, 8))):
         d, toks = define(kind, vals, t); L += d; t += len(toks)
         for tk in toks:
@@ -301,6 +301,10 @@ def hash_exec(rng):
         for a in g: ops.append("hash %d" % a)
         for a in g:
             for b in g: ops.append("cmp %d %d" % (a, b))
+    igroups = [g for g in groups if kinds_of.get(g[0]) == "I"]       # every two Int values (neighbours beyond 2^53 are different values)
+    for i, ga in enumerate(igroups):
+        for gb in igroups[i + 1:]:
+            ops.append("cmp %d %d" % (rng.choice(ga), rng.choice(gb)))
     for _ in range(60):          # values of the same kind from different groups: mostly unequal
         ga, gb = rng.sample(groups, 2)
         if kinds_of[ga[0]] == kinds_of[gb[0]]:
